@@ -29,6 +29,14 @@ func (*Transport) Transport(ctx context.Context, request []byte) (response []byt
 		err      error
 	}, 1)
 	go func() {
+		defer func() {
+			if e := recover(); e != nil {
+				ch <- struct {
+					response []byte
+					err      error
+				}{err: core.NewPanicError(e)}
+			}
+		}()
 		response, err := Agent.Handler(ctx, url.Host, request)
 		ch <- struct {
 			response []byte
